@@ -2,6 +2,7 @@ package e2e
 
 import (
 	"fmt"
+	"sync"
 	"testing"
 	"time"
 
@@ -27,9 +28,12 @@ type stepFault struct {
 
 type c16Msg struct {
 	QoS    byte                 `json:"qos"`
-	New    bool                 `json:"new_topic"` // needs a REGISTER first
-	Faults map[string]stepFault `json:"faults"`    // key: REGISTER REGACK PUBLISH PUBACK PUBREC PUBREL PUBCOMP
+	New    bool                 `json:"new_topic"`        // needs a REGISTER first
+	Faults map[string]stepFault `json:"faults"`           // key: REGISTER REGACK PUBLISH PUBACK PUBREC PUBREL PUBCOMP
 	Exceed string               `json:"exceed,omitempty"` // the gateway step whose budget the plan exceeds ("" = within budget)
+	// Follow (new topic, within budget): QoS of further messages which the broker sends on the same
+	// new topic right behind this one, before the client can have acknowledged the REGISTER
+	Follow []byte `json:"follow,omitempty"`
 }
 
 type c16Case struct {
@@ -83,6 +87,11 @@ func genC16(t *rapid.T) c16Case {
 			}
 			m.Faults[p[0]], m.Faults[p[1]] = fa, fb
 		}
+		if m.New && m.Exceed == "" && rapid.IntRange(0, 2).Draw(t, "follow") == 0 {
+			for k := rapid.IntRange(1, 2).Draw(t, "nfollow"); k > 0; k-- {
+				m.Follow = append(m.Follow, m.QoS) // same QoS: the fault plan is per packet type
+			}
+		}
 		c.Msgs = append(c.Msgs, m)
 		if m.Exceed != "" {
 			break // the gateway gives up on this message; what follows is not judged
@@ -110,7 +119,10 @@ func runC16(c c16Case) (r vf.Result) {
 	var cur *c16Msg
 	seen := map[string]int{}
 	delivered := map[string]bool{}
+	var planMu sync.Mutex // several retransmission timers may fire at the same instant
 	s.Plan = func(dir string, p snref.Pkt, raw []byte) e2e.Fate {
+		planMu.Lock()
+		defer planMu.Unlock()
 		if cur == nil {
 			return e2e.Fate{Copies: 1}
 		}
@@ -145,6 +157,17 @@ func runC16(c c16Case) (r vf.Result) {
 			r.Fail("harness-broker", "no subscription matches %q", topic)
 			return
 		}
+		type one struct {
+			mid     uint16
+			payload []byte
+		}
+		batch := []one{{mid, payload}}
+		for k, q := range m.Follow {
+			pl := []byte(fmt.Sprintf("m%d-f%d", i, k))
+			fm, _ := s.Broker.Publish(topic, pl, q, false)
+			batch = append(batch, one{fm, pl})
+			r.Label("messages-back-to-back-on-new-topic")
+		}
 		// long enough for every step to use its whole budget, plus the observation window
 		s.Advance(d*time.Duration(4*(int(c.Retries)+2)) + 30*time.Second)
 		if m.Exceed != "" {
@@ -177,9 +200,10 @@ func runC16(c c16Case) (r vf.Result) {
 				continue
 			}
 			count[name]++
-			f, again := first[name]
+			key := fmt.Sprintf("%s/%d", name, w.SN.MsgID)
+			f, again := first[key]
 			if !again {
-				first[name] = w
+				first[key] = w
 				if w.SN.Type == snref.PUBLISH && w.SN.DUP {
 					r.Fail("first-transmission-with-dup", "%s: first PUBLISH to the client has DUP=1\n%s", desc, s.Dump(40))
 					return
@@ -202,55 +226,59 @@ func runC16(c c16Case) (r vf.Result) {
 			}
 			return
 		}
-		// within budget: delivered and acknowledged
-		runs := 0
-		for _, dl := range s.CL.Deliveries {
-			if string(dl.Payload) == string(payload) {
-				runs++
-				if dl.Topic != topic {
-					r.Fail("delivered-under-wrong-topic", "%s: handler got topic %q", desc, dl.Topic)
+		// within budget: delivered and acknowledged (every message of the batch)
+		for _, b := range batch {
+			mid, payload := b.mid, b.payload
+			desc := fmt.Sprintf("%s; message %q (mid %d) of a batch of %d", desc, payload, mid, len(batch))
+			runs := 0
+			for _, dl := range s.CL.Deliveries {
+				if string(dl.Payload) == string(payload) {
+					runs++
+					if dl.Topic != topic {
+						r.Fail("delivered-under-wrong-topic", "%s: handler got topic %q", desc, dl.Topic)
+						return
+					}
+				}
+			}
+			if m.QoS == 1 {
+				acks := 0
+				for _, a := range s.Broker.Pubacks {
+					if a == mid {
+						acks++
+					}
+				}
+				if runs < 1 {
+					r.Fail("qos1-not-delivered", "%s: the handler never ran\n%s", desc, s.Dump(50))
 					return
 				}
-			}
-		}
-		if m.QoS == 1 {
-			acks := 0
-			for _, a := range s.Broker.Pubacks {
-				if a == mid {
-					acks++
+				if acks < 1 {
+					r.Fail("qos1-broker-pubacks=0", "%s: the broker received no PUBACK (handler ran %d times)\n%s", desc, runs, s.Dump(50))
+					return
 				}
-			}
-			if runs < 1 {
-				r.Fail("qos1-not-delivered", "%s: the handler never ran\n%s", desc, s.Dump(50))
-				return
-			}
-			if acks < 1 {
-				r.Fail("qos1-broker-pubacks=0", "%s: the broker received no PUBACK (handler ran %d times)\n%s", desc, runs, s.Dump(50))
-				return
-			}
-			if acks > 1 {
-				// The statement asks for the PUBACK to reach the broker, not for it to come only once
-				// (an MQTT server ignores a PUBACK it does not wait for): counted, not judged. The
-				// defect which used to cause it (a retry timer firing at the instant of progress
-				// retried the new step, i.e. the PUBACK towards the broker) is judged by C19.
-				r.Label("extra-broker-puback")
-				vf.Count("c16_extra_broker_pubacks", acks-1)
-			}
-		} else {
-			if st := s.Broker.Out[mid]; st != "done" {
-				r.Fail("qos2-incomplete-at-broker/"+st, "%s: at the broker the exchange stopped waiting for %q (handler ran %d times)\n%s", desc, st, runs, s.Dump(50))
-				return
-			}
-			if runs != 1 {
-				kind := fmt.Sprintf("qos2-handler-runs=%d", min(runs, 2))
-				// a copy of the PUBLISH that reaches the client after it has already handled the PUBREL
-				// opens a second exchange there; a further PUBREL (retransmitted because the PUBCOMP
-				// was lost, or itself duplicated) then runs the handler again
-				if m.Faults["PUBLISH"].Dup > 0 && (m.Faults["PUBCOMP"].Lose > 0 || m.Faults["PUBREL"].Dup > 0) {
-					kind += "/publish-copy-after-release"
+				if acks > 1 {
+					// The statement asks for the PUBACK to reach the broker, not for it to come only once
+					// (an MQTT server ignores a PUBACK it does not wait for): counted, not judged. The
+					// defect which used to cause it (a retry timer firing at the instant of progress
+					// retried the new step, i.e. the PUBACK towards the broker) is judged by C19.
+					r.Label("extra-broker-puback")
+					vf.Count("c16_extra_broker_pubacks", acks-1)
 				}
-				r.Fail(kind, "%s: the handler ran %d times\n%s", desc, runs, s.Dump(50))
-				return
+			} else {
+				if st := s.Broker.Out[mid]; st != "done" {
+					r.Fail("qos2-incomplete-at-broker/"+st, "%s: at the broker the exchange stopped waiting for %q (handler ran %d times)\n%s", desc, st, runs, s.Dump(50))
+					return
+				}
+				if runs != 1 {
+					kind := fmt.Sprintf("qos2-handler-runs=%d", min(runs, 2))
+					// a copy of the PUBLISH that reaches the client after it has already handled the PUBREL
+					// opens a second exchange there; a further PUBREL (retransmitted because the PUBCOMP
+					// was lost, or itself duplicated) then runs the handler again
+					if m.Faults["PUBLISH"].Dup > 0 && (m.Faults["PUBCOMP"].Lose > 0 || m.Faults["PUBREL"].Dup > 0) {
+						kind += "/publish-copy-after-release"
+					}
+					r.Fail(kind, "%s: the handler ran %d times\n%s", desc, runs, s.Dump(50))
+					return
+				}
 			}
 		}
 	}
@@ -260,7 +288,7 @@ func runC16(c c16Case) (r vf.Result) {
 func TestC16(t *testing.T) {
 	vf.Check(t, vf.Prop[c16Case]{
 		ID: "C16", Name: "delivery-under-loss", Bubble: true,
-		Rule: "real gateway session and real subscribed client (handler counting invocations) over an in-memory link with a fault plan, conforming broker model; RetryCount 1-4, RetryDelay 1/3/10 s; 1-3 broker publishes (QoS 1, QoS 2; on a known topic and on a new topic so that the REGISTER/REGACK step is part of the flow); for every gateway step (REGISTER/REGACK, PUBLISH/PUBACK, PUBLISH/PUBREC, PUBREL/PUBCOMP) the plan loses a request transmissions and b acknowledgements with a+b <= RetryCount (within budget), or all RetryCount+1 of one step (budget exceeded), and duplicates the first delivered datagram 0-2 times with delays from 0 to 25 s (so a duplicate may arrive after the exchange finished). Non-trivial = at least one loss or duplication in the plan; distinct by case.",
+		Rule:        "real gateway session and real subscribed client (handler counting invocations) over an in-memory link with a fault plan, conforming broker model; RetryCount 1-4, RetryDelay 1/3/10 s; 1-3 broker publishes (QoS 1, QoS 2; on a known topic and on a new topic so that the REGISTER/REGACK step is part of the flow - in a third of those 1-2 further messages follow on the same new topic at the same instant, before the REGISTER can have been acknowledged); for every gateway step (REGISTER/REGACK, PUBLISH/PUBACK, PUBLISH/PUBREC, PUBREL/PUBCOMP) the plan loses a request transmissions and b acknowledgements with a+b <= RetryCount (within budget), or all RetryCount+1 of one step (budget exceeded), and duplicates the first delivered datagram 0-2 times with delays from 0 to 25 s (so a duplicate may arrive after the exchange finished). Non-trivial = at least one loss or duplication in the plan; distinct by case.",
 		Assumptions: []string{"'lost at most RetryCount times in a row' is read per gateway step: request and acknowledgement losses of one step together stay within RetryCount", "after a step whose budget is exceeded the rest of the history is not judged; 'then silence' is observed for 10 further retry delays"},
 		Gen:         genC16,
 		Run:         runC16,
